@@ -46,6 +46,12 @@ type Store struct {
 	lastFlush   time.Time
 	flushNotice chan struct{}
 
+	// keyLks serialize Put and Remove calls that operate on the same key.
+	// Each of these calls is a sequence of separate index, primary and
+	// freelist operations that must not interleave with another update of
+	// the same key.
+	keyLks [keyLockStripes]sync.Mutex
+
 	closed       chan struct{}
 	closing      chan struct{}
 	flushNow     chan struct{}
@@ -396,6 +402,28 @@ func (s *Store) setErr(err error) {
 	s.stateLk.Unlock()
 }
 
+// keyLockStripes is the number of locks that keys are distributed over.
+const keyLockStripes = 256
+
+// lockKey locks the stripe that the index key belongs to and returns a
+// function that releases it. The returned function may be called more than
+// once.
+func (s *Store) lockKey(indexKey []byte) func() {
+	h := uint32(2166136261)
+	for _, b := range indexKey {
+		h = (h ^ uint32(b)) * 16777619
+	}
+	lk := &s.keyLks[h%keyLockStripes]
+	lk.Lock()
+	locked := true
+	return func() {
+		if locked {
+			locked = false
+			lk.Unlock()
+		}
+	}
+}
+
 func (s *Store) Put(key []byte, value []byte) error {
 	err := s.Err()
 	if err != nil {
@@ -407,6 +435,10 @@ func (s *Store) Put(key []byte, value []byte) error {
 	if err != nil {
 		return err
 	}
+	// Concurrent updates of the same key must not interleave.
+	unlockKey := s.lockKey(indexKey)
+	defer unlockKey()
+
 	// See if the key already exists and get offset
 	prevOffset, found, err := s.index.Get(indexKey)
 	vhook.At("store.put.after-lookup")
@@ -472,6 +504,8 @@ func (s *Store) Put(key []byte, value []byte) error {
 		}
 	}
 
+	// Do not hold the key lock while waiting for a flush.
+	unlockKey()
 	vhook.At("store.put.before-tick")
 	s.flushTick()
 
@@ -489,6 +523,10 @@ func (s *Store) Remove(key []byte) (bool, error) {
 	if err != nil {
 		return false, err
 	}
+	// Concurrent updates of the same key must not interleave.
+	unlockKey := s.lockKey(indexKey)
+	defer unlockKey()
+
 	// See if the key already exists and get offset
 	offset, found, err := s.index.Get(indexKey)
 	vhook.At("store.remove.after-lookup")
@@ -526,6 +564,8 @@ func (s *Store) Remove(key []byte) (bool, error) {
 		}
 	}
 
+	// Do not hold the key lock while waiting for a flush.
+	unlockKey()
 	vhook.At("store.remove.before-tick")
 	s.flushTick()
 	return removed, nil
